@@ -1,7 +1,10 @@
 #!/bin/sh
-# usage: tools/try_patch.sh <patch.diff> <PROP> [extra check args]   -- apply to /repo, run the check, always revert
+# usage: tools/try_patch.sh <abs patch.diff> <PROP> [extra check args]   -- apply to /repo, run the check, always revert
 P=$1; shift
 git -C /repo apply "$P" || exit 9
-trap 'git -C /repo checkout -- . ' EXIT
-/verif/check "$@" --evidence /tmp/try_patch_evidence.json
-echo "exit=$?"
+trap 'git -C /repo checkout -- . ' EXIT INT TERM HUP PIPE
+/verif/check "$@" --evidence /tmp/try_patch_evidence.json > /tmp/try_patch.out 2>&1
+rc=$?
+git -C /repo checkout -- .
+grep -E "VIOLATION|KNOWN-FINDING|tier=|HARNESS-ERROR|INCONCLUSIVE" /tmp/try_patch.out | cut -c1-400 | head -${TRY_LINES:-6}
+echo "exit=$rc"
